@@ -14,6 +14,19 @@ T = {
  "C37_1": ("C37","fast/cmd.go removeCmd copies one element too few when shifting the head","delete a command with fewer predecessors than successors in a bucket of >= 4","caught: quick, VH_C37_removeCmd4/5"),
  "C37_2": ("C37","fast/cmd.go prefixSearch candidate scan stops at n-1","ambiguous prefix whose last candidate is last in its bucket","caught: quick, VH_C37_prefixSearch2"),
  "C37_3": ("C37","fast/cmd.go Cmds.Add skips the re-sort unless name < first element","add a command sorting between existing ones in a bucket of >= 2","caught: quick, VH_C37_addStep2"),
+ "C14_1": ("C14","fast/declaration.go CompBinds.NewBind slot-reuse test has old/new kinds swapped","a one-slot global redefined as complex128 after another global was declared","caught: quick, VH_C14_newBind_redefine"),
+ "C14_2": ("C14","fast/address.go Var.Address upn==2/float64 sets IntAddressTaken before walking to the owning frame","&x of a float64 global taken two frames below the global frame, then > 1024 later declarations","missed at first (address.go not covered); caught after adding c14_address_gen.go: VH_C14_Address_float64_I"),
+ "C14_3": ("C14","fast/global.go BindClass narrowed to uint16 (descriptor index truncated)","more than 8191 globals of one storage class","caught: quick, VH_C14_descriptor + newBind_*"),
+ "C19_1": ("C19","fast/debug.go singleStep: CallDepth <= DebugDepth instead of <","next with a callee exactly one level deeper; finish at the same depth","caught: quick, VH_C19_singleStep_on, VH_C19_stopRule"),
+ "C19_2": ("C19","fast/compile.go freeEnv4Func: run.CurrEnv = env.Outer instead of env.Caller","second and later calls from the same frame get a wrong call depth","missed by the first C19 check; caught by C06 (VH_C06_free) and, after sharing the harness, by VH_C19_callDepth_onReturn"),
+ "C19_3": ("C19","fast/debug/cmd.go cmdFinish: CallDepth-1","finish issued at depth >= 2","caught: quick, VH_C19_commands, VH_C19_lookup"),
+ "C13_1": ("C13","fast/code.go exec(): endless loop polls only Signals.Sync","interrupt after the first 70 statements of a plain function body without calls","caught: quick, VH_C13_interrupt_plainLoop"),
+ "C13_2": ("C13","fast/code.go reExecWithFlags first phase: SigDefer handling wipes Signals.Async","interrupt arriving <= 13 statements before a defer statement in the first 70 statements","missed at first; caught after adding VH_C13_interrupt_beforeDefer"),
+ "C13_3": ("C13","fast/code.go reExecWithFlags single-step loop loses its Async branch","interrupt while the debugger steps over a loop without interpreted calls","missed at first; caught after adding VH_C13_interrupt_whileSteppingOver"),
+ "C07_1": ("C07","fast/code.go pushDefer records DeferOfFun only when panicking","recover() in a deferred function of a non-panicking function called from a deferred function of a panicking one","missed at first; caught after adding VH_C07_recoverInDeferOfCalledFunction"),
+ "C07_2": ("C07","fast/code.go popDefer no longer clears EFStartDefer","a deferred call to a compiled function followed by a helper that calls recover()","missed at first (harness was under C12 only); caught by VH_C07_compiledDeferredCall, VH_C07_pushPopDefer"),
+ "C12_3": ("C12","fast/code.go rundefer calls maybeRepanic unconditionally","a function with a defer returning normally in an evaluation after one aborted by a panic","missed at first; caught after adding probe 0 to VH_C12_abortedByPanic"),
+ "C12_4": ("C12","fast/repl.go RunExpr restores CurrEnv without defer","an Eval aborted by a panic leaves Run.CurrEnv pointing at dead frames","missed at first; caught after adding VH_C12_runExprAborted"),
 }
 for k,(prop,what,needs,res) in T.items():
     d='/verif/seeded/'+k
